@@ -4,7 +4,8 @@
    reader.go); spec: C13Spec.v (escape / unescape / forbidden), C13Bits.v (bit lists). *)
 From V.lib Require Import Base.
 From V.c13 Require Import C13Spec C13Model C13Bits C13EscProofs C13MarkProofs
-  C13WriterProofs C13ReaderProofs C13RoundTrip C13PlainProofs.
+  C13WriterProofs C13ReaderProofs C13RoundTrip C13PlainProofs
+  C13ModelExt C13TrailProofs C13FswProofs C13FswRoundTrip C13ByteWriterProofs.
 
 (* ---- emulation prevention, byte level, every byte string ---- *)
 Theorem C13_unescape_escape : forall l : list N, unescape (escape l) = l.
@@ -134,6 +135,93 @@ Theorem C13_plain_roundtrip : forall ops,
 Proof. exact plain_roundtrip. Qed.
 Print Assumptions C13_plain_roundtrip.
 
+(* ---- EBSPReader.ReadRbspTrailingBits (model: C13ModelExt.read_trailing) ---- *)
+(* nil exactly on 1 0* (the EOF it ran into is cleared); "doesn't start with 1" on a leading 0;
+   "another 1" when a second 1 follows; on an exhausted stream nil with the error left set *)
+Theorem C13_read_trailing : forall s,
+  RGood s ->
+  match rbits s with
+  | [] => exists s', read_trailing s = Some (TNil, s') /\ rerr s' = true
+  | false :: t => exists s', read_trailing s = Some (TNoOne, s') /\ rbits s' = t /\ RGood s'
+  | true :: t =>
+      if existsb is1 t
+      then exists s', read_trailing s = Some (TSecondOne, s') /\ RGood s' /\ rbits s' = after_one t
+      else exists s', read_trailing s = Some (TNil, s') /\ rerr s' = false
+  end.
+Proof. exact read_trailing_spec. Qed.
+Print Assumptions C13_read_trailing.
+
+(* the round trip to the end of the NAL unit: values read back, then MoreRbspData = false without
+   moving, then ReadRbspTrailingBits accepts what WriteRbspTrailingBits wrote, no error left *)
+Theorem C13_trailing_roundtrip : forall ops,
+  forallb value_op ops = true ->
+  let data := wout (run_writer (ops ++ [WTrail])) in
+  exists s' s'',
+    run_reader (map rop_of ops) (rinit data) = (map rval_of ops, s') /\
+    more_rbsp_data s' = (Some false, s') /\
+    read_trailing s' = Some (TNil, s'') /\ rerr s'' = false.
+Proof. exact trailing_roundtrip. Qed.
+Print Assumptions C13_trailing_roundtrip.
+
+(* ---- FixedSliceWriter (model: C13ModelExt.fsw, every Write* method except WriteString) ---- *)
+Theorem C13_fsw_within_capacity : forall cap ops, foff (run_fsw cap ops) <= cap.
+Proof. exact run_fsw_within_capacity. Qed.
+Print Assumptions C13_fsw_within_capacity.
+
+(* WriteBits / WriteFlag / FlushBits do nothing at all once the accumulated error is set *)
+Theorem C13_fsw_sticky : forall s, ferr s = true ->
+  (forall v n, fwrite_bits s v n = s) /\ (forall b, fstep s (FFlag b) = s) /\ fflush s = s.
+Proof. exact fsw_sticky. Qed.
+Print Assumptions C13_fsw_sticky.
+
+(* with enough room the bit methods ARE the plain Writer (any widths, any values, Flush anywhere) *)
+Theorem C13_fsw_refines_writer : forall cap ops,
+  forallb pf_op ops = true ->
+  N.of_nat (length (wout (run_writer_plain ops))) <= cap ->
+  fbytes (run_fsw cap (map wop_fop ops)) = wout (run_writer_plain ops) /\
+  ferr (run_fsw cap (map wop_fop ops)) = false.
+Proof. exact fsw_refines_writer. Qed.
+Print Assumptions C13_fsw_refines_writer.
+
+Theorem C13_fsw_roundtrip : forall cap ops,
+  forallb plain_op ops = true ->
+  N.of_nat (length (wout (flush_plain (run_writer_plain ops)))) <= cap ->
+  let data := fbytes (run_fsw cap (map wop_fop (ops ++ [WFlush]))) in
+  ferr (run_fsw cap (map wop_fop (ops ++ [WFlush]))) = false /\
+  exists s', fold_left (fun '(acc, st) o =>
+               match o with
+               | WBits _ w => let '(v, st') := read_plain st w in (acc ++ [v], st')
+               | _ => let '(v, st') := read_plain st 1 in (acc ++ [v], st')
+               end) ops ([], rinit data)
+             = (map (fun o => match o with WBits v _ => v | WFlag b => N.b2n b | _ => 0 end) ops, s')
+             /\ rerr s' = false.
+Proof. exact fsw_roundtrip. Qed.
+Print Assumptions C13_fsw_roundtrip.
+
+(* byte-level methods with enough room: the big-endian encodings, concatenated, no error *)
+Theorem C13_fsw_byte_ops : forall cap ops bss,
+  map fop_bytes ops = map Some bss ->
+  N.of_nat (length (concat bss)) <= cap ->
+  fbytes (run_fsw cap ops) = concat bss /\ ferr (run_fsw cap ops) = false.
+Proof. exact fsw_byte_ops. Qed.
+Print Assumptions C13_fsw_byte_ops.
+
+(* k big-endian bytes decode to the value modulo 2^(8k) *)
+Theorem C13_be_roundtrip : forall k v, be_val (be_bytes k v) = v mod 2 ^ (8 * N.of_nat k).
+Proof. exact be_val_bytes. Qed.
+Print Assumptions C13_be_roundtrip.
+
+(* ---- ByteWriter over a writer that accepts cap bytes ---- *)
+Theorem C13_bytewriter : forall cap ops,
+  bbytes (run_bw cap ops) = firstn (N.to_nat cap) (concat (map bop_bytes ops)) /\
+  berr (run_bw cap ops) = (cap <? N.of_nat (length (concat (map bop_bytes ops)))).
+Proof. exact bw_spec. Qed.
+Print Assumptions C13_bytewriter.
+
+Theorem C13_bytewriter_sticky : forall s o, berr s = true -> bstep s o = s.
+Proof. exact bw_sticky. Qed.
+Print Assumptions C13_bytewriter_sticky.
+
 (* ---- non-vacuity: concrete non-trivial instances ---- *)
 Example ex_ops : list wop := [WBits 0 16; WBits 3 8; WUe 4294967294; WSe (-7)%Z; WFlag true; WBits 0 24; WBits 1 7].
 Example ex_ops_ok : forallb value_op ex_ops = true.
@@ -146,3 +234,25 @@ Example ex_read_back :
 Proof. vm_compute. reflexivity. Qed.
 Example ex_escape : escape [0;0;0;0;1;0;0;3;255] = [0;0;3;0;0;3;1;0;0;3;3;255].
 Proof. vm_compute. reflexivity. Qed.
+
+(* the extension: trailing bits accepted / rejected, FixedSliceWriter tight and roomy, ByteWriter cut *)
+Example ex_trailing_ok :
+  let s := snd (run_reader (map rop_of ex_ops) (rinit (wout (run_writer (ex_ops ++ [WTrail]))))) in
+  option_map fst (read_trailing s) = Some TNil /\ fst (more_rbsp_data s) = Some false.
+Proof. vm_compute. split; reflexivity. Qed.
+Example ex_trailing_bad :
+  option_map fst (read_trailing (rinit [144])) = Some TSecondOne /\
+  option_map fst (read_trailing (rinit [64])) = Some TNoOne /\
+  option_map fst (read_trailing (rinit [128; 0; 0; 3])) = Some TNil.
+Proof. vm_compute. repeat split; reflexivity. Qed.
+Example ex_fops : list fop := [FU 4 4294901760; FBits 5 3; FU24 16909060; FFlag true; FFlush; FI 2 (-2)%Z; FU48 1108152157446].
+Example ex_fsw_roomy : fbytes (run_fsw 64 ex_fops) = [255;255;0;0;2;3;4;176;255;254;1;2;3;4;5;6] /\ ferr (run_fsw 64 ex_fops) = false.
+Proof. vm_compute. split; reflexivity. Qed.
+Example ex_fsw_tight : fbytes (run_fsw 6 ex_fops) = [255;255;0;0;255;254] /\ ferr (run_fsw 6 ex_fops) = true.
+Proof. vm_compute. split; reflexivity. Qed.
+Example ex_pf_ops : forallb pf_op [WBits 5 3; WFlush; WFlag true; WBits 1023 9; WFlush] = true /\
+  wout (run_writer_plain [WBits 5 3; WFlush; WFlag true; WBits 1023 9; WFlush]) = [160; 191; 248].
+Proof. vm_compute. split; reflexivity. Qed.
+Example ex_bw : bbytes (run_bw 9 [BU 2 258; BU48 1108152157446; BU 4 7; BSlice [9]]) = [1;2;1;2;3;4;5;6;0] /\
+  berr (run_bw 9 [BU 2 258; BU48 1108152157446; BU 4 7; BSlice [9]]) = true.
+Proof. vm_compute. split; reflexivity. Qed.
